@@ -101,6 +101,8 @@ type Input struct {
 	// choices taken at the yield points of the round (start order, hold a Register call or not,
 	// who registers first when several are inside); read cyclically
 	Sched []int `json:"sched,omitempty"`
+	// after the round: batches one after the other again
+	After []Batch `json:"after,omitempty"`
 }
 
 type Series struct {
@@ -121,6 +123,7 @@ type Step struct {
 type Observation struct {
 	Steps []Step   `json:"steps"`
 	Conc  *ConcObs `json:"conc,omitempty"`
+	After []Step   `json:"after,omitempty"`
 }
 
 // the metrics file a hook would write
@@ -246,36 +249,44 @@ func Run(in Input) Observation {
 		ms.Registerer = gt
 	}
 	for _, b := range in.Batches {
-		var st Step
-		ops, err := operation.MetricOperationsFromBytes([]byte(fileText(b.Ops)))
-		if err != nil {
-			st.Broken = "metrics file does not parse: " + err.Error()
-			o.Steps = append(o.Steps, st)
-			continue
-		}
-		err = ms.SendBatch(ops, map[string]string{"hook": valStr(b.Hook)})
-		if err != nil {
-			st.Failed = true
-			st.Error = err.Error()
-			if len(st.Error) > 200 {
-				st.Error = st.Error[:200]
-			}
-		}
-		fams, gerr := ms.Gatherer.Gather()
-		if gerr != nil {
-			st.Broken = "Gather: " + gerr.Error()
-		} else {
-			st.Series, st.Broken = canon(fams)
-		}
-		if st.Series == nil {
-			st.Series = []Series{}
-		}
-		o.Steps = append(o.Steps, st)
+		o.Steps = append(o.Steps, sendOne(ms, b))
 	}
 	if len(in.Round) > 0 {
 		o.Conc = runRound(ms, gt, in)
+		for _, b := range in.After {
+			o.After = append(o.After, sendOne(ms, b))
+		}
 	}
 	return o
+}
+
+// sendOne: one batch, then Gather
+func sendOne(ms *metricstorage.MetricStorage, b Batch) Step {
+	var st Step
+	st.Series = []Series{}
+	ops, err := operation.MetricOperationsFromBytes([]byte(fileText(b.Ops)))
+	if err != nil {
+		st.Broken = "metrics file does not parse: " + err.Error()
+		return st
+	}
+	err = ms.SendBatch(ops, map[string]string{"hook": valStr(b.Hook)})
+	if err != nil {
+		st.Failed = true
+		st.Error = err.Error()
+		if len(st.Error) > 200 {
+			st.Error = st.Error[:200]
+		}
+	}
+	fams, gerr := ms.Gatherer.Gather()
+	if gerr != nil {
+		st.Broken = "Gather: " + gerr.Error()
+	} else {
+		st.Series, st.Broken = canon(fams)
+	}
+	if st.Series == nil {
+		st.Series = []Series{}
+	}
+	return st
 }
 
 // ---- rendering ----
@@ -340,16 +351,23 @@ func Render(in Input, obs *Observation, crash string) core.Case {
 		return fmt.Sprintf("(%d, %s)", b.Hook, core.CoqList(b.Ops, coqOp))
 	}))
 	input := sb.String()
-	obsTerm := core.CoqList(steps, func(s Step) string {
+	stepTerm := func(s Step) string {
 		ser := s.Series
 		if s.Broken != "" {
 			// an impossible series makes the case fail visibly
 			ser = append(append([]Series{}, ser...), Series{Kind: 9, Name: 9999, Labels: [][2]int{}})
 		}
 		return fmt.Sprintf("(%s, %s)", core.CoqBool(s.Failed), core.CoqList(ser, coqSeries))
-	})
-	roundTerm, concTerm := "[]", "([], [])"
+	}
+	obsTerm := core.CoqList(steps, stepTerm)
+	roundTerm, concTerm, afterTerm, aobsTerm := "[]", "([], [])", "[]", "[]"
 	if len(in.Round) > 0 {
+		afterTerm = core.CoqList(in.After, func(b Batch) string {
+			return fmt.Sprintf("(%d, %s)", b.Hook, core.CoqList(b.Ops, coqOp))
+		})
+		if obs != nil {
+			aobsTerm = core.CoqList(obs.After, stepTerm)
+		}
 		roundTerm = core.CoqList(in.Round, func(b Batch) string {
 			return fmt.Sprintf("(%d, %s)", b.Hook, core.CoqList(b.Ops, coqOp))
 		})
@@ -365,12 +383,12 @@ func Render(in Input, obs *Observation, crash string) core.Case {
 		}
 		concTerm = fmt.Sprintf("(%s, %s)", core.CoqList(co.Failed, core.CoqBool), core.CoqList(ser, coqSeries))
 	}
-	c.Coq = fmt.Sprintf("(%s, %s,\n  %s,\n  (%s,\n   %s))", core.CoqBool(in.Judged), input, obsTerm, roundTerm, concTerm)
+	c.Coq = fmt.Sprintf("(%s, %s,\n  %s,\n  (%s,\n   %s),\n  (%s,\n   %s))", core.CoqBool(in.Judged), input, obsTerm, roundTerm, concTerm, afterTerm, aobsTerm)
 	c.JSON = map[string]any{"steps": steps}
 	if obs != nil && obs.Conc != nil {
-		c.JSON = map[string]any{"steps": steps, "conc": obs.Conc}
+		c.JSON = map[string]any{"steps": steps, "conc": obs.Conc, "after": obs.After}
 	}
-	c.Key = input + " || " + roundTerm
+	c.Key = input + " || " + roundTerm + " || " + afterTerm
 	grouped, valid, replaced := 0, 0, false
 	seenGroup := map[int]int{}
 	for bi, b := range in.Batches {
@@ -498,6 +516,7 @@ func concTags(c *core.Case, in Input, obs *Observation) bool {
 	if len(in.Batches) == 0 {
 		c.Tags = append(c.Tags, "conc:fresh-storage")
 	}
+	c.Tags = append(c.Tags, fmt.Sprintf("conc:batches-after-%d", len(in.After)))
 	return in.Judged && writers >= 2
 }
 
@@ -708,7 +727,10 @@ var roundGroups = [][]int{{1, 4}, {2, 5}, {3, 6}}
 // operations, now and then an invalid operation; every goroutine has groups of its own, the label
 // x tells the groups apart (value 10+group: never used by the history), so no F5a collision.
 func (g *gen) concurrent() Input {
-	in, sch := g.historySch(g.r.Intn(4), false, true)
+	nBefore, nAfter := g.r.Intn(4), g.r.Intn(3)
+	in, sch := g.historySch(nBefore+nAfter, false, true)
+	in.After = append([]Batch{}, in.Batches[nBefore:]...)
+	in.Batches = in.Batches[:nBefore]
 	sch[7] = &schema{kind: 1 + g.r.Intn(2), grouped: true}
 	sch[8] = &schema{kind: 1 + g.r.Intn(2), grouped: true}
 	var groupedNames, freeNames []int
@@ -773,6 +795,17 @@ func (g *gen) concurrent() Input {
 	}
 	for k := 0; k < 8; k++ {
 		in.Sched = append(in.Sched, g.r.Intn(12))
+	}
+	// the batches after the round also report groups and new names of the round again (replacement)
+	for i := range in.After {
+		if g.r.Chance(60) {
+			grp := roundGroups[g.r.Intn(nT)][g.r.Intn(2)]
+			n := 7 + g.r.Intn(2)
+			o := Op{Group: grp, Name: n, Labels: g.subsetLabels([]int{1, 2, 3, 12}, 20)}
+			o.Labels = setLabel(o.Labels, 11, 10+grp)
+			g.fill(&o, sch[n])
+			in.After[i].Ops = append(in.After[i].Ops, o)
+		}
 	}
 	return in
 }
@@ -869,6 +902,12 @@ func Corpus() []Input {
 		{Judged: true, Batches: []Batch{}, Sched: []int{1, 1, 1, 1},
 			Round: []Batch{{1, []Op{{Group: 1, Name: 7, Action: "set", Value: ip(24), Labels: lbl(1, 1)}}},
 				{2, []Op{{Group: 2, Name: 7, Action: "set", Value: ip(12), Labels: lbl(1, 2)}}}}},
+		// ... and afterwards each hook replaces its group
+		{Judged: true, Batches: []Batch{}, Sched: []int{1, 1, 1, 1},
+			Round: []Batch{{1, []Op{{Group: 1, Name: 7, Action: "set", Value: ip(24), Labels: lbl(1, 1)}}},
+				{2, []Op{{Group: 2, Name: 7, Action: "set", Value: ip(12), Labels: lbl(1, 2)}}}},
+			After: []Batch{{1, []Op{{Group: 1, Name: 7, Action: "set", Value: ip(32), Labels: lbl(1, 3)}}},
+				{2, []Op{{Group: 2, Name: 7, Action: "set", Value: ip(20), Labels: lbl(2, 1)}}}}},
 		// the same, the other one registers first; counters; three goroutines
 		{Judged: true, Batches: []Batch{}, Sched: []int{1, 2, 3, 1, 5, 2},
 			Round: []Batch{{1, []Op{{Group: 1, Name: 8, Action: "add", Value: ip(8), Labels: lbl(1, 1)}}},
@@ -918,6 +957,6 @@ func Gen(r *core.Rng, tier string) ([]core.In[Input], bool) {
 
 var Driver = core.Driver[Input, Observation]{
 	Spec: core.Spec{Property: "C16", Imports: []string{"C16_Model", "C16_Spec", "C16_Corr"}, Corr: "C16_Corr", Triggers: []string{"F5a"}, ShrinkKey: "batches",
-		Rule: "histories of metric batches written as hooks write them (JSON lines, parsed by the real operation package) sent to a real MetricStorage with its own registry, Gather() canonicalised after every batch; 2 hooks, 3 groups, 6 metric names with a per-history schema (kind, grouped or not, ungrouped label names, buckets), varying label shapes with empty values for grouped metrics, integer and dyadic values, add/set shortcut fields, explicit expire, 15% of batches with one invalid operation; streams: corpus, random (groups never share (name, labels)), trigger (they may: F5a), informational (out-of-domain, never judged); the implementation's observations are judged against the model run with EVERY order of the batch's groups (Go map iteration); non-trivial = judged, >= 2 accepted batches, grouped operations, some group reported again in a later batch; stream concurrent (every 4th): a history, then a ROUND of 2-3 batches handed in at the same time by one goroutine each (groups pairwise different between goroutines; grouped set/add on the same new metric name from several goroutines, on different new names, on names the history knows, explicit expire, some ungrouped operations, 10% with an invalid operation; one hook or several), the interleaving steered through a prometheus.Registerer wrapper (a Register call is held until another goroutine is inside Register too, or all others are parked or have returned, or 3 ms have passed; who registers first, start order and staggered start are choices from the input's sched list); compared only after all goroutines have returned: failure flags, and Gather() judged against the model with the round's batches as atomic steps in EVERY order, P_case = the reference registry after SOME order; non-trivial there = judged and >= 2 accepted batches of the round with grouped set/add; distinct = distinct input term (history and round)"},
+		Rule: "histories of metric batches written as hooks write them (JSON lines, parsed by the real operation package) sent to a real MetricStorage with its own registry, Gather() canonicalised after every batch; 2 hooks, 3 groups, 6 metric names with a per-history schema (kind, grouped or not, ungrouped label names, buckets), varying label shapes with empty values for grouped metrics, integer and dyadic values, add/set shortcut fields, explicit expire, 15% of batches with one invalid operation; streams: corpus, random (groups never share (name, labels)), trigger (they may: F5a), informational (out-of-domain, never judged); the implementation's observations are judged against the model run with EVERY order of the batch's groups (Go map iteration); non-trivial = judged, >= 2 accepted batches, grouped operations, some group reported again in a later batch; stream concurrent (every 4th): a history, then a ROUND of 2-3 batches handed in at the same time by one goroutine each (groups pairwise different between goroutines; grouped set/add on the same new metric name from several goroutines, on different new names, on names the history knows, explicit expire, some ungrouped operations, 10% with an invalid operation; one hook or several), the interleaving steered through a prometheus.Registerer wrapper (a Register call is held until another goroutine is inside Register too, or all others are parked or have returned, or 3 ms have passed; who registers first, start order and staggered start are choices from the input's sched list); then 0-2 batches one after the other again (reporting groups and new names of the round again); compared only after all goroutines have returned: failure flags, and Gather() judged against the model with the round's batches as atomic steps in EVERY order, P_case = the reference registry after SOME order; non-trivial there = judged and >= 2 accepted batches of the round with grouped set/add; distinct = distinct input term (history and round)"},
 	Gen: Gen, Run: Run, Render: Render, PerShard: 700, Workers: 8, CaseTimout: 30 * time.Second,
 }
